@@ -297,6 +297,28 @@ def coq_audit(ctx, props_file, theorems):
     return not problems, problems
 
 
+
+def coq_audit_multi(ctx, specs):
+    """specs: [(props_file, theorems), ...]; audits each and merges ctx.coq_info. Returns (ok, problems)."""
+    infos, ok, problems = [], True, []
+    for props, ths in specs:
+        o, pr = coq_audit(ctx, props, ths)
+        ok, problems = ok and o, problems + pr
+        infos.append(ctx.coq_info)
+    bad = [ci for ci in infos if not ci.get("built")]
+    if bad:
+        ctx.coq_info = bad[0]
+        return ok, problems
+    closure = list(dict.fromkeys(f for ci in infos for f in ci["closure"]))
+    nq = sum(len(re.findall(r"\bQed\.", strip_comments(open(COQ + "/" + f).read()))) for f in closure)
+    assumptions = {}
+    for ci in infos:
+        assumptions.update(ci["assumptions"])
+    ctx.coq_info = {"built": True, "closure": closure, "theorems": [t for ci in infos for t in ci["theorems"]], "qed_in_closure": nq,
+                    "assumptions": assumptions, "sources_sha256": "+".join(ci["sources_sha256"] for ci in infos),
+                    "targets": [p.replace(".v", ".vo") for p, _ in specs]}
+    return ok, problems
+
 def _coqc_file(path, timeout):
     rc, out, err = sh(["coqc", "-noglob", "-Q", os.path.join(COQ, "theories"), "LI", path],
                       cwd=os.path.dirname(path), timeout=timeout)
